@@ -9,6 +9,8 @@ vars == <<holder, depth, cnt, owner, pc, spin, want>>
 Init == /\ holder = 0 /\ depth = 0 /\ cnt = 0 /\ owner = 0
         /\ pc = [t \in Threads |-> "idle"] /\ spin = [t \in Threads |-> 0] /\ want = [t \in Threads |-> 0]
 \* pthread_mutex_trylock on a recursive mutex
+\* `if ((count--) < 0) count = 0;` : the test looks at the value before the decrement, so the counter can reach -1
+Dec(c) == IF c < 0 THEN 0 ELSE c - 1
 TryLockOK(t) == holder = 0 \/ (holder = t /\ Recursive)
 Enter(t) == /\ pc[t] \in {"idle", "cs"} /\ (pc[t] = "cs" => want[t] < MaxDepth)
             /\ pc' = [pc EXCEPT ![t] = IF pc[t] = "cs" THEN "enter2" ELSE "enter"] /\ spin' = [spin EXCEPT ![t] = 0]
@@ -19,19 +21,25 @@ Try(t) == /\ pc[t] \in {"enter", "enter2"}
                   /\ pc' = [pc EXCEPT ![t] = "cs"] /\ want' = [want EXCEPT ![t] = @ + 1] /\ UNCHANGED spin
              ELSE IF spin[t] < MaxSpin
              THEN spin' = [spin EXCEPT ![t] = @ + 1] /\ UNCHANGED <<holder, depth, cnt, owner, pc, want>>
-             ELSE \* "force to unlock": Q_MUTEX_LEAVE by a non-owner. pthread_mutex_unlock fails with EPERM on a
-                  \* recursive mutex (nothing happens to it); only the shadow counter is decremented (and clamped).
-                  /\ cnt' = IF cnt - 1 < 0 THEN 0 ELSE cnt - 1
-                  /\ spin' = [spin EXCEPT ![t] = 0] /\ UNCHANGED <<holder, depth, owner, pc, want>>
+             ELSE \* the last failed attempt of a spin round: next comes the "force to unlock"
+                  /\ pc' = [pc EXCEPT ![t] = IF pc[t] = "enter" THEN "force" ELSE "force2"]
+                  /\ UNCHANGED <<holder, depth, cnt, owner, spin, want>>
+\* "force to unlock": Q_MUTEX_LEAVE by a thread that does not hold the mutex.  pthread_mutex_unlock fails with EPERM on a
+\* recursive mutex (nothing happens to it); only the shadow counter is decremented.  A separate step: other threads can run
+\* between the last failed trylock and this.
+Force(t) == /\ pc[t] \in {"force", "force2"}
+            /\ cnt' = Dec(cnt) /\ spin' = [spin EXCEPT ![t] = 0]
+            /\ pc' = [pc EXCEPT ![t] = IF pc[t] = "force" THEN "enter" ELSE "enter2"]
+            /\ UNCHANGED <<holder, depth, owner, want>>
 Leave(t) == /\ pc[t] = "cs" /\ holder = t
-            /\ cnt' = IF cnt - 1 < 0 THEN 0 ELSE cnt - 1
+            /\ cnt' = Dec(cnt)
             /\ depth' = depth - 1 /\ holder' = IF depth = 1 THEN 0 ELSE t
             /\ want' = [want EXCEPT ![t] = @ - 1]
             /\ pc' = [pc EXCEPT ![t] = IF want[t] = 1 THEN "idle" ELSE "cs"]
             /\ UNCHANGED <<owner, spin>>
-Next == \E t \in Threads : Enter(t) \/ Try(t) \/ Leave(t)
+Next == \E t \in Threads : Enter(t) \/ Try(t) \/ Force(t) \/ Leave(t)
 Spec == Init /\ [][Next]_vars
-InCS(t) == pc[t] \in {"cs", "enter2"}
+InCS(t) == pc[t] \in {"cs", "enter2", "force2"}
 MutualExclusion == \A a, b \in Threads : InCS(a) /\ InCS(b) => a = b
 DepthMatches == \A t \in Threads : InCS(t) => holder = t /\ depth = want[t]
 ShadowExact == cnt = depth                  \* NOT an invariant: the force-unlock path desynchronises the shadow counter
